@@ -2,9 +2,6 @@ package genwl
 
 import "verifharness/monitor"
 
-func runC10(cfg *config, res *monitor.Result)   {}
-func runC11(cfg *config, res *monitor.Result)   {}
-func runC12(cfg *config, res *monitor.Result)   {}
 func runC18(cfg *config, res *monitor.Result)   {}
 func runC19(cfg *config, res *monitor.Result)   {}
 func runReplay(cfg *config, res *monitor.Result) {}
